@@ -8,7 +8,7 @@ cd /verif
 WT=/tmp/matrix_wt
 git -C /repo worktree remove --force $WT 2>/dev/null
 git -C /repo worktree add --detach $WT HEAD -q || exit 2
-seeds="$@"; [ -z "$seeds" ] && seeds=$(ls seeded | grep -v '^_')
+seeds="$@"; [ -z "$seeds" ] && seeds=$(ls seeded | grep '^C[0-9][0-9]-')
 mkdir -p /verif/seeded/_results
 for s in $seeds; do
   prop=${s%%-*}
